@@ -157,8 +157,42 @@ def build_gate(d):
     raise ValueError("unknown descriptor kind " + k)
 
 
-def build_circuit(instrs):
-    return _ctx["qib"].Circuit([build_gate(d) for d in instrs])
+def _observe(circ):
+    """what a caller (or an earlier submission) looks at between builder calls; none of it may influence later answers"""
+    for f in (circ.particles, circ.clbits, circ.fields, circ.as_qasm):
+        try:
+            f()
+        except Exception:
+            pass
+
+
+def build_circuit(instrs, plan=None):
+    """the Circuit holding exactly `instrs` in order. `plan` = (a, b, mode bits): it is assembled through the builder API around the
+    core instrs[a:b] - earlier instructions prepended (as a circuit or one by one), later ones appended - with observer calls
+    (particles/clbits/fields/as_qasm) after every step, as when a circuit is inspected or submitted, then extended, then submitted again."""
+    qib = _ctx["qib"]
+    gates = [build_gate(d) for d in instrs]
+    if not plan:
+        return qib.Circuit(gates)
+    a, b, bits = plan
+    a = min(a, len(gates)); b = max(a, min(b, len(gates)))
+    circ = qib.Circuit(gates[a:b])
+    _observe(circ)
+    if bits & 1:
+        circ.prepend_circuit(qib.Circuit(gates[:a]))
+        _observe(circ)
+    else:
+        for g in reversed(gates[:a]):
+            circ.prepend_gate(g)
+            _observe(circ)
+    if bits & 2:
+        circ.append_circuit(qib.Circuit(gates[b:]))
+        _observe(circ)
+    else:
+        for g in gates[b:]:
+            circ.append_gate(g)
+            _observe(circ)
+    return circ
 
 
 def expected_instr(d):
@@ -287,7 +321,7 @@ def impl_submit(case):
     try:
         with contextlib.redirect_stdout(io.StringIO()):
             proc = _ctx["procs"][case["proc"]]("token")
-            circ = build_circuit(case["instrs"])
+            circ = build_circuit(case["instrs"], case.get("plan"))
             opts = make_options(case)
             try:
                 exp = proc.submit_experiment("exp-name", circ) if opts is None else proc.submit_experiment("exp-name", circ, opts)
@@ -323,7 +357,7 @@ def impl_validate(case):
     wexp.uuid = types.SimpleNamespace(uuid4=lambda: FIXED_UUID, UUID=_uuid.UUID)
     out = {"requests": 0}
     try:
-        circ = build_circuit(case["instrs"])
+        circ = build_circuit(case["instrs"], case.get("plan"))
         opts = make_options(case) or qib.backend.wmi.WMIOptions()
         try:
             exp = wexp.WMIExperiment("exp-name", circ, opts, live_config(case["config"]), qib.backend.ProcessorCredentials("u", "t"))
@@ -824,6 +858,9 @@ def gen_cases(tier, rng):
 
         def mk(instrs, options, tag, proc=proc):
             c = {"op": "wmi.submit", "proc": proc, "instrs": instrs, "outcomes": rng.choice(SCRIPTS) if rng.random() < 0.25 else OK_OUT, "tag": tag}
+            if len(instrs) >= 2 and rng.random() < 0.3:
+                # assembled through the builder API with inspections in between (same final instruction list)
+                a = rng.randrange(len(instrs)); c["plan"] = [a, rng.randint(a, len(instrs)), rng.randrange(4)]
             if options is not None:
                 c["options"] = options
             return c
@@ -833,6 +870,8 @@ def gen_cases(tier, rng):
 
         def mk(instrs, options, tag, cd=cd):
             c = {"op": "wmi.validate", "config": cd, "instrs": instrs, "tag": tag}
+            if len(instrs) >= 2 and rng.random() < 0.3:
+                a = rng.randrange(len(instrs)); c["plan"] = [a, rng.randint(a, len(instrs)), rng.randrange(4)]
             if options is not None:
                 c["options"] = options
             return c
